@@ -20,4 +20,16 @@ def run():
     if DEDUCTIVE:
         c.deductive(DEDUCTIVE)
     _pipeline.pipeline_part(c, "C10")
+    # the contract of vhdlFile.update on the real method with real token objects (stand-in if update leaves the subset,
+    # cross-check otherwise): splice semantics and "index rebuilt from the new list iff bUpdateMap"
+    from bounded import corpus, update_contract
+    from pyvc.checklib import Finding
+
+    n = 600 if c.tier == "quick" else 20000
+    res = corpus.pmap(update_contract.one, [c.seed * 1000000 + i for i in range(n)], chunksize=50)
+    c.bounded["update_contract"] = {"evaluations": n, "distinct_nontrivial": n, "rule": "seeded token lists (4-40 real token objects), 0-4 ascending disjoint regions, replacements that keep / grow / shrink / retype / reorder the region, half of the cases with length changes that cancel; every seed is a distinct case"}
+    for seed, why in res:
+        if why:
+            c.findings.append(Finding("bounded", "update_contract", why, {"scenario_seed": seed, "observed": why, "how_to_rerun": "cd /verif && /venv/bin/python -c 'from bounded import update_contract as u; print(u.one(%d))'" % seed}, "seed=%d" % seed))
+            break
     return c.finish({"explanation": META["text"]})
